@@ -440,7 +440,7 @@ def c16(ctx):
 
 
 # ------------------------------------------------------------------ C13
-def life_cfg(rounds, attempts, outcomes, sm, d6=False, d12=False, d27=False, emit=True):
+def life_cfg(rounds, attempts, outcomes, sm, d6=False, d12=False, d27=False, d26=False, d28=False, emit=True, inv=None):
     b = lambda x: "TRUE" if x else "FALSE"
     return """SPECIFICATION Spec
 CONSTANTS
@@ -452,11 +452,15 @@ CONSTANTS
   TeardownEmitsDisconnected = %s
   GracefulCloseBlocks = %s
   DialErrorPermanent = %s
+  KeepaliveOutlivesSession = %s
+  FailedDialClearsConn = %s
   Emit = %s
-INVARIANTS C13_AtMostOneLoop C13_OneSessionPerLoss C13_PostConnectOncePerSession C13_AtMostOneLiveSession C13_PermanentEndsLoop C13_OnlyPermanentErrorsEndLoop C13_StopReturnsRun %s
+INVARIANTS %s %s
 PROPERTIES C13_LossLeadsToSession
 CHECK_DEADLOCK FALSE
-""" % (rounds, attempts, outcomes, b(sm), b(d6), b(d12), b(d27), b(emit), "EmitInv" if emit else "")
+""" % (rounds, attempts, outcomes, b(sm), b(d6), b(d12), b(d27), b(d26), b(d28), b(emit),
+       inv or "C13_AtMostOneLoop C13_OneSessionPerLoss C13_PostConnectOncePerSession C13_AtMostOneLiveSession C13_PermanentEndsLoop C13_OnlyPermanentErrorsEndLoop C13_StopReturnsRun C13_NoPanic C18_KeepaliveEndsWithSession",
+       "EmitInv" if emit else "")
 
 
 @check("C13")
@@ -473,12 +477,14 @@ def c13(ctx):
             scen += blines(vlib.tlc_mc(ctx, "Lifecycle", "MC_Lifecycle.cfg", cfgtext=life_cfg(**g)))
         # non-vacuity: the three defects found in the code violate the properties in the model
         for name, kw, code in (("D6 teardown reader emits Disconnected", dict(d6=True), 12), ("D12 graceful close blocks", dict(d12=True), 12),
-                               ("D27 dial error permanent", dict(d27=True), 12)):
+                               ("D27 dial error permanent", dict(d27=True), 12),
+                               ("D26 keepalive outlives its session: ends the re-established session", dict(d26=True, inv="C13_OneSessionPerLoss"), 12),
+                               ("D28 failed dial clears the connection a stale keepalive pings", dict(d26=True, d28=True, inv="C13_NoPanic"), 12)):
             r = vlib.run_tlc(ctx, "Lifecycle", "MC_Lifecycle.cfg", workers=2, timeout=300,
                              cfgtext=life_cfg(rounds=2, attempts=2, outcomes=allo, sm=True, emit=False, **kw))
             if r["code"] != code:
                 raise Infra("non-vacuity: the model variant '%s' did not violate a C13 property (exit %d)" % (name, r["code"]))
-        ctx.notes["non_vacuity"] = "model variants with D6 / D12 / D27 (code as found) each violate a C13 invariant"
+        ctx.notes["non_vacuity"] = "model variants with D6 / D12 / D27 / D26 / D28 (code as found) each violate a C13 invariant"
         ctx.exhaustive = True
         ctx.notes["bounds"] = "fault sequences: k<=%d losses (abrupt reset / graceful stream close) x up to 2 failing attempts per loss from {connection refused, reset at open, negotiation torn down, credentials rejected} x resumption accepted or refused, SM on/off, then Stop" % (2 if q else 3)
         out, nev, _ = vlib.run_driver(ctx, "life", scen=scen, timeout=3000)
@@ -516,6 +522,11 @@ CHECK_DEADLOCK FALSE
         lscen = []
         for g in [dict(rounds=1, attempts=1, outcomes=S("refuse", "transient"), sm=True), dict(rounds=2 if q else 3, attempts=1, outcomes=S("reset"), sm=False)]:
             lscen += blines(vlib.tlc_mc(ctx, "Lifecycle", "MC_Lifecycle.cfg", cfgtext=life_cfg(**g)))
+        r = vlib.run_tlc(ctx, "Lifecycle", "MC_Lifecycle.cfg", workers=2, timeout=300,
+                         cfgtext=life_cfg(rounds=1, attempts=1, outcomes=S("refuse"), sm=True, emit=False, d26=True, inv="C18_KeepaliveEndsWithSession"))
+        if r["code"] != 12:
+            raise Infra("non-vacuity: the Lifecycle variant with a keepalive that outlives its session did not violate C18_KeepaliveEndsWithSession (exit %d)" % r["code"])
+        ctx.notes["non_vacuity_lifecycle"] = "Lifecycle.tla with KeepaliveOutlivesSession (code as found, D26) violates C18_KeepaliveEndsWithSession"
         out, nev, _ = vlib.run_driver(ctx, "life", scen=lscen, args=["-kaonly"], timeout=1800)
         ctx.verdicts += vlib.tlc_trace(ctx, "TraceLifecycle", "Trace_Lifecycle.cfg", out, nev, timeout=900)
     replay_or(ctx, "c18", "TraceKeepalive", "Trace_Keepalive.cfg", full)
